@@ -63,6 +63,8 @@ class Ctx:
         s.alloc_limit = o.get('alloc_limit', 64)
         s.concretize_k = o.get('concretize_k', 48)
         s.allow_go = o.get('allow_go', False)
+        s.fresh_feas = o.get('fresh_feas', True)
+        s.last_feas_solver = None
         s.instrs = 0
         s.solver_calls = 0
         s.solver_time = 0.0
@@ -106,9 +108,19 @@ class Interp:
         a = list(pc)
         if extra is not None:
             a.append(extra)
-        r = c.solver.check(*a)
+        if c.fresh_feas:
+            fs = z3.Solver()
+            fs.set('timeout', c.feas_timeout)
+            fs.add(*a)
+            r = fs.check()
+            c.last_feas_solver = fs
+        else:
+            r = c.solver.check(*a)
+            c.last_feas_solver = c.solver
         dt = time.time() - t
         c.solver_time += dt
+        if c.verbose and dt > 2:
+            print(f'   slow feasibility check {dt:.1f}s -> {r} pc={len(pc)} instrs={c.instrs}', flush=True)
         if c.deadline and time.time() > c.deadline:
             raise Inconclusive('instance time budget exceeded')
         return r
@@ -374,7 +386,7 @@ class Interp:
         # unique value under the path condition?
         m = s.check(st.pc)
         if m == z3.sat:
-            val = s.ctx.solver.model().eval(v, model_completion=True)
+            val = s.ctx.last_feas_solver.model().eval(v, model_completion=True)
             if s.check(st.pc, v != val) == z3.unsat:
                 return val.as_long()
         raise Unsupported('symbolic ' + what)
